@@ -23,7 +23,7 @@ GROUPS = {
                               "_flush_op_by_precedence", "_postfix_from_infix", "_maybe_multiaxis", "expression_from_string",
                               "DLTypeDimensionExpression.__init__", "DLTypeDimensionExpression.from_multiaxis_literal", "@_VALID_IDENTIFIER_RX"]),
     "Shape": ("_tensor_type_base.py", ["TensorTypeBase.__init__", "TensorTypeBase._parse_shape_string", "TensorTypeBase.__class_getitem__"]),
-    "Expand": ("_dltype_context.py", ["_ConcreteType.tensor_arg_name", "_ConcreteType.get_expected_shape", "DLTypeContext.__init__"]),
+    "Expand": ("_dltype_context.py", ["_ConcreteType.tensor_arg_name", "DLTypeContext.__init__"]),
     "Hints": ("_core.py", ["DLTypeAnnotation.from_hint", "_resolve_types", "_resolve_value", "_maybe_get_type_hints", "_maybe_get_signature"]),
     "Decorate": ("_core.py", ["dltyped", "dltyped_namedtuple", "dltyped_dataclass"]),
     "Pydantic": ("_tensor_type_base.py", ["TensorTypeBase.__get_pydantic_core_schema__", "unwrap_type_alias", "_resolve_numpy_dtype"]),
